@@ -270,7 +270,50 @@ def discharge(ctx, obligations, timeout, order, workers=16):
         return list(ex.map(work, obligations))
 
 
+def prove_regular(name, tier):
+    """Layer R (curies.w3c): one language-equality obligation per function."""
+    from . import regular
+    t0 = time.time()
+    repo = get_repo()
+    loader.load()
+    try:
+        label, text, param = regular.build_obligation(repo, loader, name)
+    except Unsupported as e:
+        raise Demoted(str(e))
+    res = ProofResult()
+    timeout = 60 if tier == "quick" else 180
+    r = smt.solve(text, timeout, order=("z3-new", "z3", "cvc5"), stagger=0.0)
+    from .symex import Obligation
+    ob = Obligation(label, "language-equality", [], TRUE, name)
+    ob.status, ob.solver, ob.solver_output = r["result"], r["solver"], r["tried"]
+    res.n_obligations = 1
+    for t in r["tried"]:
+        a = res.by_backend.setdefault(t["solver"], [0, 0.0])
+        a[1] += t["s"]
+    if r["result"] == "unsat":
+        res.n_discharged = 1
+        res.by_backend[r["solver"]][0] += 1
+    else:
+        ob.refuted = r["result"] == "sat"
+        if ob.refuted:
+            m = __import__("re").search(r'\(\(s ("(?:[^"]|"")*")\)\)', r["raw"])
+            if m:
+                ob.counterexample = {param: regular.parse_smt_string(m.group(1))}
+        res.failed.append(ob)
+    base = baseline_hashes()
+    h = func_hash(repo, name)
+    res.source_changed = name in base and base[name] != h
+    res.trusted = {"Python's re module decides membership in the regular language translated from re._parser's parse tree (no back-references / look-around occur; the translator rejects them)",
+                   "solver character range stops at U+2FFFF; whitespace classes (str.isspace, str.strip, \\s) are enumerated from the running interpreter and checked to agree and to lie below that bound"}
+    res.info.update({"source_hash": h, "layer": "R (regular-language equality)", "prove_s": round(time.time() - t0, 2),
+                     "undischarged": [{"label": ob.label, "status": ob.status}] if res.failed else []})
+    res.samples.append({"obligation": label, "kind": "language-equality", "result": r["result"], "solver": r["solver"], "s": round(r["s"], 3), "goal_smt": text[:400]})
+    return res
+
+
 def prove_item(kind, name, tier, seed, known=()):
+    if kind == "contract" and name.startswith("w3c."):
+        return prove_regular(name, tier)
     t0 = time.time()
     carve = [k["carve_out"] for k in known]
     try:
@@ -282,7 +325,7 @@ def prove_item(kind, name, tier, seed, known=()):
         raise Demoted(str(e))
     res = ProofResult()
     res.trusted = set(ctx.trusted)
-    timeout = 20 if tier == "quick" else 90
+    timeout = int(os.environ.get("PYVC_TIMEOUT", "45" if tier == "quick" else "150"))
     order = ("z3-new", "z3", "cvc5")
     from .symex import Obligation
     canaries = [Obligation(f"{name}:canary:precondition satisfiable", "canary", pre.pc, FALSE, name)]
